@@ -64,3 +64,7 @@ Proof.
     destruct ((gs <=? last) && (last <=? ge)); apply IH. }
   rewrite H. destruct (C15.Model.intergenic_go start end_ padding genes start []) as [areas last]. reflexivity.
 Qed.
+
+(* _overlap_size as a WHOLE: the sum over all pairs of parts of the bases two parts share *)
+Lemma tie_overlap_size o c : C15.Model.overlap_size o c = k_overlap_size o c.
+Proof. reflexivity. Qed.
